@@ -82,9 +82,19 @@ func H_C01_addsub() {
 	}
 	// alignment: (x.exp - 19*wx) - (y.exp - 19*wy) == d
 	ex := int64(x.exp) - int64(wx*_DW)
-	ey := int64(y.exp) - int64(wy*_DW)
-	vAssume(ex-ey == int64(d))
+	ey := ex - int64(d)
+	if y != x {
+		// y's exponent is derived (not assumed) so that inputs can be sampled
+		ye := ey + int64(wy*_DW)
+		vAssume(vAnd(ye >= MinExp, ye <= MaxExp))
+		y.exp = int32(ye)
+	}
 	z := receiver(alias, x, y, p)
+	if vCfgOr("p0", 0) == 1 {
+		// zero-precision receiver: takes the larger operand precision (px, py concrete)
+		z.prec = 0
+		p = maxInt(px, py)
+	}
 	mode := z.mode
 	// exact result from the pre-state
 	A := sMulPow10(specMant(x), maxInt(d, 0))
